@@ -10,6 +10,7 @@ mod monitors3;
 mod macrogen;
 mod c19;
 mod extras;
+mod races;
 mod rt;
 mod props;
 mod runner;
@@ -110,7 +111,11 @@ fn main() {
         }
         "capseq" => {
             let vals: Vec<usize> = get("vals", "-").split(',').filter_map(|s| s.parse().ok()).collect();
-            extras::capseq_child(&vals);
+            if get("race", "0") == "1" {
+                extras::caprace_child(&vals);
+            } else {
+                extras::capseq_child(&vals);
+            }
         }
         "extra" => {
             let prop = get("prop", "");
@@ -129,6 +134,13 @@ fn main() {
                 "C09" => extras::c09_caps(seed, if thorough { 400 } else { 40 }, &rout, &mut part),
                 "C11" => extras::c11_ids(seed, if thorough { 400 } else { 40 }, &rout, &mut part),
                 _ => 0,
+            };
+            let code = if code == 0 && prop == "C09" { extras::c09_cap_race(seed, if thorough { 600 } else { 60 }, &rout, &mut part) } else { code };
+            let kinds = races::kinds_for(&prop);
+            let code = if code == 0 && !kinds.is_empty() {
+                races::run(&prop, kinds, seed, if thorough { 3000 } else { 150 }, &rout, &mut part, &extras::write_replay)
+            } else {
+                code
             };
             part.wall_s = t0.elapsed().as_secs_f64();
             let out = get("out", "");
